@@ -2,10 +2,15 @@ package main
 
 import (
 	stdx509 "crypto/x509"
+	"crypto/x509/pkix"
+	"encoding/asn1"
+	"encoding/json"
 	"fmt"
+	"os"
 	"path/filepath"
 	"sort"
 	"strings"
+	"time"
 
 	"github.com/zmap/zlint/v3/lint"
 )
@@ -224,6 +229,81 @@ func subC17(out string, seed uint64, tier string, arg string) {
 		}
 		rep.sample(map[string]interface{}{"san": descs, "cn": cn})
 	}
+	// ---- kit: certificates of four profiles (TLS BR, S/MIME legacy, S/MIME strict, sub CA) carrying two to four *extra* extensions
+	// whose OIDs are taken from zlint's own OID table (the extensions lints look for), each critical or not, in every order of the
+	// extension list: a rule that walks c.Extensions and stops at the first one of a family is sensitive to it
+	extOIDs := lintKnownOIDs()
+	rep.count(fmt.Sprintf("lint-known-oids=%d", len(extOIDs)))
+	nx := 120
+	if tier == "thorough" {
+		nx = 3000
+	}
+	smimeNB := time.Date(2023, 10, 1, 0, 0, 0, 0, time.UTC)
+	profiles := []CertSpec{
+		{DNS: []string{"x.example.com"}, Subject: pkixName("x.example.com"), EKUs: []stdx509.ExtKeyUsage{stdx509.ExtKeyUsageServerAuth}, Policies: []asn1.ObjectIdentifier{{2, 23, 140, 1, 2, 2}}, NotBefore: smimeNB, NotAfter: smimeNB.AddDate(0, 6, 0)},
+		{Emails: []string{"a@example.com"}, Subject: pkixName("Legacy User"), EKUs: []stdx509.ExtKeyUsage{stdx509.ExtKeyUsageEmailProtection}, Policies: []asn1.ObjectIdentifier{{2, 23, 140, 1, 5, 1, 1}}, KeyUsage: stdx509.KeyUsageDigitalSignature, NotBefore: smimeNB, NotAfter: smimeNB.AddDate(1, 0, 0)},
+		{Emails: []string{"a@example.com"}, Subject: pkixName("Multi User"), EKUs: []stdx509.ExtKeyUsage{stdx509.ExtKeyUsageEmailProtection, stdx509.ExtKeyUsageClientAuth}, Policies: []asn1.ObjectIdentifier{{2, 23, 140, 1, 5, 3, 2}}, KeyUsage: stdx509.KeyUsageDigitalSignature, NotBefore: smimeNB, NotAfter: smimeNB.AddDate(1, 0, 0)},
+		{Emails: []string{"a@example.com"}, Subject: pkixName("Strict User"), EKUs: []stdx509.ExtKeyUsage{stdx509.ExtKeyUsageEmailProtection}, Policies: []asn1.ObjectIdentifier{{2, 23, 140, 1, 5, 2, 3}}, KeyUsage: stdx509.KeyUsageDigitalSignature, NotBefore: smimeNB, NotAfter: smimeNB.AddDate(1, 0, 0)},
+		{IsCA: true, Subject: pkixName("Order Sub CA"), KeyUsage: stdx509.KeyUsageCertSign, NotBefore: smimeNB, NotAfter: smimeNB.AddDate(5, 0, 0)},
+	}
+	// first every pair of neighbours of the name-sorted table (names of one family sort together) in every profile, one critical
+	// and one not; then random picks
+	nsys := len(extOIDs) * len(profiles)
+	for i := 0; i < nsys+nx && len(extOIDs) > 1; i++ {
+		spec := profiles[i%len(profiles)]
+		k := 2 + rng.Intn(3)
+		start := rng.Intn(len(extOIDs))
+		systematic := i < nsys
+		if systematic {
+			k, start = 2, i/len(profiles)
+		}
+		var picked []string
+		for j := 0; j < k; j++ {
+			o := extOIDs[(start+j*(1+rng.Intn(2)))%len(extOIDs)]
+			if systematic {
+				o = extOIDs[(start+j)%len(extOIDs)]
+			}
+			dup := false
+			for _, e := range spec.ExtraExt {
+				if e.Id.Equal(o) {
+					dup = true
+				}
+			}
+			if dup {
+				continue
+			}
+			crit := rng.Bool()
+			if systematic {
+				crit = j == 1
+			}
+			spec.ExtraExt = append(spec.ExtraExt, pkix.Extension{Id: o, Critical: crit, Value: []byte{0x30, 0x00}})
+			picked = append(picked, o.String())
+		}
+		der, err := BuildCert(spec)
+		if err != nil {
+			rep.count("kit-ext-build-error")
+			continue
+		}
+		base := parseObj("cert", "kit-ext["+strings.Join(picked, ",")+"]", der)
+		cd, err2 := ParseCertDER(der)
+		if base == nil || err2 != nil || cd.HasDuplicateExtension() {
+			rep.count("kit-ext-rejected")
+			continue
+		}
+		ne := cd.NumExtensions()
+		for t := 0; t < 4; t++ {
+			c2, _ := ParseCertDER(der)
+			c2.PermuteExtensions(rng.Perm(ne))
+			pm := parseObj("cert", base.Name+"~extperm", c2.Bytes())
+			if pm == nil {
+				rep.count("kit-ext-perm-rejected")
+				continue
+			}
+			rep.distinctKey(fmt.Sprintf("%s|ext%d", base.Name, t))
+			checkPair(base, pm, "extensions", func(n string) string { return "ext-order:" + n })
+		}
+		rep.count("kit-ext-certs")
+	}
 	// ---- corpus: SAN and extension permutations
 	objs := loadObjects()
 	ncorp := 150
@@ -290,4 +370,38 @@ func sameMultiset(a, b []string) bool {
 		}
 	}
 	return true
+}
+
+// lintKnownOIDs: the object identifiers of zlint's own table (util/oid.go, regenerated into facts.json), name-sorted
+func lintKnownOIDs() []asn1.ObjectIdentifier {
+	exe, _ := os.Executable()
+	p := filepath.Join(filepath.Dir(filepath.Dir(exe)), "facts.json")
+	if v := os.Getenv("VERIF_FACTS"); v != "" {
+		p = v
+	}
+	data, err := os.ReadFile(p)
+	if err != nil {
+		return nil
+	}
+	var f struct {
+		Tables struct {
+			Oids []struct {
+				Name string `json:"name"`
+				Arcs []int  `json:"arcs"`
+			} `json:"oids"`
+		} `json:"tables"`
+	}
+	if json.Unmarshal(data, &f) != nil {
+		return nil
+	}
+	var out []asn1.ObjectIdentifier
+	for _, o := range f.Tables.Oids {
+		// extensions the standard library writes itself from the template would be duplicated
+		s := asn1.ObjectIdentifier(o.Arcs).String()
+		if strings.HasPrefix(s, "2.5.29.") || s == "1.3.6.1.5.5.7.1.1" || len(o.Arcs) < 4 {
+			continue
+		}
+		out = append(out, asn1.ObjectIdentifier(o.Arcs))
+	}
+	return out
 }
